@@ -241,3 +241,237 @@ Proof.
     + apply skip_none. reflexivity.
     + apply nl_ok.
 Qed.
+
+(** ---- the alternatives of the top rule on a command line / at the end ---- *)
+Lemma opt_soi pos r : EV (POpt PSoi) AtNon pos r (POk pos r []).
+Proof. apply (evals_of_ev l_grammar 2); [|discriminate]. destruct pos; reflexivity. Qed.
+
+Lemma exp_if_fails pos r : strip_prefix s_if r = None -> starts_blank r = false -> EV (PRef L_EXP_IF) AtNon pos r PFail.
+Proof.
+  intros H Hb. ref_nf. eapply evals_seq_fail_b; [apply opt_soi | apply skip_none, Hb |].
+  apply evals_seq_fail. ref_nf. apply evals_seq_fail. ref_nf. apply evals_seq_fail. ref_s. apply evals_str_fail, H.
+Qed.
+
+Lemma exp_for_fails pos r : strip_prefix s_for r = None -> starts_blank r = false -> EV (PRef L_EXP_FOR) AtNon pos r PFail.
+Proof.
+  intros H Hb. ref_nf. eapply evals_seq_fail_b; [apply opt_soi | apply skip_none, Hb |].
+  apply evals_seq_fail. ref_nf. apply evals_seq_fail. ref_s. apply evals_str_fail, H.
+Qed.
+
+Lemma exp_while_fails pos r : strip_prefix s_while r = None -> starts_blank r = false -> EV (PRef L_EXP_WHILE) AtNon pos r PFail.
+Proof.
+  intros H Hb. ref_nf. eapply evals_seq_fail_b; [apply opt_soi | apply skip_none, Hb |].
+  apply evals_seq_fail. ref_nf. apply evals_seq_fail. ref_s. apply evals_str_fail, H.
+Qed.
+
+Definition Y_top : pexp := PAlt (PRef L_EXP_IF) (PAlt (PRef L_EXP_FOR) (PAlt (PRef L_EXP_WHILE) (PRef L_CMD))).
+
+Lemma cmd_ok_facts line : cmd_ok line = true ->
+  forall rest, starts_blank (line ++ 10 :: rest) = false /\
+  strip_prefix s_if (line ++ 10 :: rest) = None /\ strip_prefix s_for (line ++ 10 :: rest) = None /\
+  strip_prefix s_while (line ++ 10 :: rest) = None.
+Proof.
+  intros H rest. unfold cmd_ok in H.
+  apply andb_prop in H as [H Hkw]. apply andb_prop in H as [H He]. apply andb_prop in H as [Hok Hs].
+  unfold strict_nokw, kw_prefixes in Hkw. cbn [forallb] in Hkw.
+  repeat (apply andb_prop in Hkw as [? Hkw]).
+  repeat match goal with X : negb _ = true |- _ => apply negb_true_iff in X end.
+  split; [|repeat split; apply nokw_fail; (assumption || reflexivity)].
+  destruct line as [|c t]; [discriminate|]. cbn. apply blank_ws. cbn in Hs. apply negb_true_iff in Hs. exact Hs.
+Qed.
+
+Lemma Y_cmd pos line rest : cmd_ok line = true ->
+  EV Y_top AtNon pos (line ++ 10 :: rest) (POk (S (pos + length line)) rest [Node L_CMD pos (S (pos + length line)) []]).
+Proof.
+  intro H. destruct (cmd_ok_facts line H rest) as [Hb [H1 [H2 H3]]]. unfold Y_top.
+  apply evals_alt_r; [apply exp_if_fails; assumption|].
+  apply evals_alt_r; [apply exp_for_fails; assumption|].
+  apply evals_alt_r; [apply exp_while_fails; assumption|].
+  apply cmd_parses, H.
+Qed.
+
+Lemma Y_nil pos : EV Y_top AtNon pos [] PFail.
+Proof. apply (evals_of_ev l_grammar 40); [|discriminate]. destruct pos; vm_compute; reflexivity. Qed.
+
+(** ---- flat scripts ---- *)
+Fixpoint render_lines (ls : list str) : str :=
+  match ls with [] => [] | l :: r => l ++ 10 :: render_lines r end.
+Fixpoint cmd_nodes (pos : nat) (ls : list str) : list tree :=
+  match ls with
+  | [] => []
+  | l :: r => Node L_CMD pos (S (pos + length l)) [] :: cmd_nodes (S (pos + length l)) r
+  end.
+
+Lemma render_lines_start ls : forallb cmd_ok ls = true -> starts_blank (render_lines ls) = false.
+Proof.
+  destruct ls as [|l r]; [reflexivity|]. cbn [forallb render_lines]. intro H. apply andb_prop in H as [H _].
+  apply (cmd_ok_facts l H (render_lines r)).
+Qed.
+
+Lemma lines_tail : forall ls pos, forallb cmd_ok ls = true ->
+  EV (PRepTail Y_top) AtNon pos (render_lines ls) (POk (pos + length (render_lines ls)) [] (cmd_nodes pos ls)).
+Proof.
+  induction ls as [|l r IH]; intros pos H.
+  - cbn [render_lines length cmd_nodes]. rewrite Nat.add_0_r.
+    eapply evals_reptail_stop; [apply skip_none; reflexivity | apply Y_nil].
+  - pose proof (render_lines_start _ H) as Hs.
+    cbn [forallb] in H. apply andb_prop in H as [Hl Hr].
+    cbn [render_lines cmd_nodes] in *.
+    replace (pos + length (l ++ (10%N :: render_lines r)))%nat with (S (pos + length l) + length (render_lines r))%nat
+      by (rewrite app_length; cbn [length]; lia).
+    change (Node L_CMD pos (S (pos + length l)) [] :: cmd_nodes (S (pos + length l)) r)
+      with ([] ++ [Node L_CMD pos (S (pos + length l)) []] ++ cmd_nodes (S (pos + length l)) r)%list.
+    eapply evals_reptail_step; [apply skip_none, Hs | apply Y_cmd, Hl | lia | apply IH, Hr].
+Qed.
+
+Lemma lines_rep ls pos : forallb cmd_ok ls = true ->
+  EV (PRep Y_top) AtNon pos (render_lines ls) (POk (pos + length (render_lines ls)) [] (cmd_nodes pos ls)).
+Proof.
+  intro H. destruct ls as [|l r].
+  - cbn [render_lines length cmd_nodes]. rewrite Nat.add_0_r. apply evals_rep_none, Y_nil.
+  - cbn [forallb] in H. apply andb_prop in H as [Hl Hr]. cbn [render_lines cmd_nodes].
+    replace (pos + length (l ++ (10%N :: render_lines r)))%nat with (S (pos + length l) + length (render_lines r))%nat
+      by (rewrite app_length; cbn [length]; lia).
+    change (Node L_CMD pos (S (pos + length l)) [] :: cmd_nodes (S (pos + length l)) r)
+      with ([Node L_CMD pos (S (pos + length l)) []] ++ cmd_nodes (S (pos + length l)) r)%list.
+    eapply evals_rep_some; [apply Y_cmd, Hl | apply lines_tail, Hr].
+Qed.
+
+Theorem flat_script_parses ls : forallb cmd_ok ls = true ->
+  let n := length (render_lines ls) in
+  EV (PRef L_EXP) AtNon 0 (render_lines ls)
+     (POk n [] [Node L_EXP 0 n (cmd_nodes 0 ls ++ [Node L_EOI n n []])]).
+Proof.
+  intros H n. eapply evals_ref_normal_ok; [reflexivity | reflexivity |].
+  change (cmd_nodes 0 ls ++ [Node L_EOI n n []])%list
+    with ([] ++ [] ++ (cmd_nodes 0 ls ++ [] ++ [Node L_EOI n n []]))%list.
+  eapply evals_seq_ok.
+  - apply (evals_of_ev l_grammar 1); [reflexivity|discriminate].
+  - apply skip_none, render_lines_start, H.
+  - eapply evals_seq_ok.
+    + apply (lines_rep ls 0 H).
+    + apply skip_none. reflexivity.
+    + apply (evals_of_ev l_grammar 1); [reflexivity|discriminate].
+Qed.
+
+(** ---- texts of the pairs ---- *)
+Lemma sub_mid pre t rest : sub (pre ++ t ++ rest) (length pre) (length pre + length t) = t.
+Proof.
+  unfold sub. replace (length pre + length t - length pre)%nat with (length t) by lia.
+  rewrite skipn_app, skipn_all, Nat.sub_diag. cbn [skipn app].
+  rewrite firstn_app, firstn_all, Nat.sub_diag. cbn [firstn]. apply app_nil_r.
+Qed.
+
+Lemma trim_start_nonws t : starts_nonws t = true -> trim_start t = t.
+Proof. destruct t as [|c t]; [discriminate|]. cbn. intro H. apply negb_true_iff in H. rewrite H. reflexivity. Qed.
+
+Lemma trim_line l : starts_nonws l = true -> ends_nonws l = true -> trim (l ++ [10]) = l.
+Proof.
+  intros Hs He. unfold trim. rewrite trim_start_nonws.
+  2:{ destruct l; [discriminate|exact Hs]. }
+  unfold trim_end. rewrite rev_app_distr. cbn [rev app]. 
+  change (trim_start (10 :: rev l)) with (trim_start (rev l)).
+  unfold ends_nonws in He. rewrite trim_start_nonws; [apply rev_involutive|].
+  destruct (rev l); [discriminate|exact He].
+Qed.
+
+Definition cmd_t (l : str) : ttree := TNode L_CMD l [].
+
+Lemma annot_cmds : forall ls pre, forallb cmd_ok ls = true ->
+  map (annotate (pre ++ render_lines ls)) (cmd_nodes (length pre) ls) = map cmd_t ls.
+Proof.
+  induction ls as [|l r IH]; intros pre H; [reflexivity|].
+  cbn [forallb] in H. apply andb_prop in H as [Hl Hr].
+  cbn [render_lines cmd_nodes map]. f_equal.
+  - cbn [annotate map]. unfold cmd_t. f_equal.
+    replace (pre ++ l ++ 10 :: render_lines r) with (pre ++ (l ++ [10]) ++ render_lines r)
+      by (rewrite <- (app_assoc l); reflexivity).
+    replace (S (length pre + length l)) with (length pre + length (l ++ [10%N]))%nat
+      by (rewrite app_length; cbn [length]; lia).
+    rewrite sub_mid. unfold cmd_ok in Hl.
+    apply andb_prop in Hl as [Hl _]. apply andb_prop in Hl as [Hl He]. apply andb_prop in Hl as [_ Hs].
+    apply trim_line; assumption.
+  - replace (pre ++ l ++ 10 :: render_lines r) with ((pre ++ l ++ [10]) ++ render_lines r)
+      by (rewrite <- !app_assoc; reflexivity).
+    replace (S (length pre + length l)) with (length (pre ++ l ++ [10%N]))
+      by (rewrite !app_length; cbn [length]; lia).
+    apply IH, Hr.
+Qed.
+
+(** ---- flat scripts as syntax trees ---- *)
+Fixpoint flat_lines (b : block) : option (list str) :=
+  match b with
+  | BNil => Some []
+  | BCons (SCmd [] line) r => option_map (cons line) (flat_lines r)
+  | BCons (SBreak []) r => option_map (cons kw_break) (flat_lines r)
+  | BCons (SCont []) r => option_map (cons kw_continue) (flat_lines r)
+  | BCons _ _ => None
+  end.
+
+(** the fragment: command lines only (break / continue included), no indentation, each line
+    free of CR / LF, not starting or ending with white space, not starting with one of
+    `if `, `for `, `else if `, `else`, `fi`, `while `, `done` *)
+Definition frag_flat (b : block) : bool :=
+  match flat_lines b with Some ls => forallb cmd_ok ls | None => false end.
+
+Lemma flat_lines_spec : forall b ls, flat_lines b = Some ls ->
+  render_block b = render_lines ls /\ kids_of_block b = map cmd_t ls.
+Proof.
+  fix IH 1. intros b ls H. destruct b as [|s r]; cbn [flat_lines] in H.
+  - injection H as <-. split; reflexivity.
+  - destruct s as [ind line|ws|ind|ind| | | ]; try discriminate H;
+      destruct ind; try discriminate H;
+      destruct (flat_lines r) as [ls'|] eqn:E; try discriminate H;
+      injection H as <-; destruct (IH r ls' E) as [H1 H2];
+      (split; [ change (render_block (BCons ?s r)) with (render_stmt s ++ render_block r)
+              | change (kids_of_block (BCons ?s r)) with (tree_of_stmt s :: kids_of_block r) ]).
+    all: try (cbn [render_stmt app nl]; rewrite H1; cbn [render_lines]; rewrite <- app_assoc; reflexivity).
+    all: try (rewrite H2; reflexivity).
+Qed.
+
+Lemma sub_all src : sub src 0 (length src) = src.
+Proof. unfold sub. rewrite Nat.sub_0_r. cbn [skipn]. apply firstn_all. Qed.
+
+Lemma strip_cmds ls : 
+  filter (fun k => negb (t_rule k =? L_EOI)) (map (strip_eoi L_EOI) (map cmd_t ls ++ [TNode L_EOI [] []])) = map cmd_t ls.
+Proof.
+  rewrite map_app, filter_app. cbn [map strip_eoi filter t_rule]. rewrite N.eqb_refl. cbn [negb]. rewrite app_nil_r.
+  induction ls as [|l r IH]; [reflexivity|]. cbn [map strip_eoi filter t_rule cmd_t].
+  change (L_CMD =? L_EOI) with false. cbn [negb]. f_equal. exact IH.
+Qed.
+
+(** C14_parse_partial: every flat script is parsed, completely, to its ideal tree --
+    for all sufficiently large fuel (the real parser has no fuel). *)
+Theorem parse_flat : forall b, frag_flat b = true ->
+  exists kids,
+    EV (PRef L_EXP) AtNon 0 (render_block b) (POk (length (render_block b)) [] kids) /\
+    map (fun k => strip_eoi L_EOI (annotate (render_block b) k)) kids = [tree_of_script b].
+Proof.
+  intros b H. unfold frag_flat in H. destruct (flat_lines b) as [ls|] eqn:E; [|discriminate].
+  destruct (flat_lines_spec b ls E) as [Hr Hk].
+  pose proof (flat_script_parses ls H) as P. cbv zeta in P.
+  eexists. split.
+  - rewrite Hr. exact P.
+  - cbn [map]. f_equal. unfold tree_of_script. rewrite Hk, Hr.
+    cbn [annotate strip_eoi]. rewrite sub_all. f_equal.
+    rewrite map_app. cbn [map annotate].
+    pose proof (annot_cmds ls [] H) as A. cbn [app length] in A. rewrite A.
+    replace (trim (sub (render_lines ls) (length (render_lines ls)) (length (render_lines ls)))) with (@nil char).
+    + apply strip_cmds.
+    + unfold sub. rewrite Nat.sub_diag. reflexivity.
+Qed.
+
+(** ... and for the fuel that parse_from computes: that result or out of fuel, nothing else. *)
+Corollary parse_flat_from : forall b, frag_flat b = true ->
+  parse_from l_grammar L_EXP (render_block b) = PFuel \/ parse_ok b.
+Proof.
+  intros b H. destruct (parse_flat b H) as [kids [[f0 Hf] Hk]].
+  destruct (parse_from l_grammar L_EXP (render_block b)) as [| |p r k] eqn:E; [|left; reflexivity|].
+  - right. exfalso. unfold parse_from in E.
+    pose proof (Hf (Nat.max f0 (peg_fuel (render_block b))) (Nat.le_max_l _ _)) as H1.
+    rewrite (ev_mono_le l_grammar _ _ _ _ _ _ _ E) in H1; [discriminate|discriminate|apply Nat.le_max_r].
+  - right. unfold parse_from in E.
+    pose proof (Hf (Nat.max f0 (peg_fuel (render_block b))) (Nat.le_max_l _ _)) as H1.
+    rewrite (ev_mono_le l_grammar _ _ _ _ _ _ _ E) in H1; [|discriminate|apply Nat.le_max_r].
+    injection H1 as -> -> ->. exists (length (render_block b)), kids. split; [exact E | exact Hk].
+Qed.
